@@ -172,8 +172,24 @@ def r1_r2(ctx, fs):
     env.rename[dims['u']], env.rename[dims['v']] = 'ps', 'qs'
     _grid_covers(ctx, rid, f, env, env.decls[dims['u']], env.decls[dims['v']])
     _, cl = posted(fs, f, env=env)
-    small = [(c, w, n) for c, w, n in cl if ('if', ('<', size_of('ls'), ('num', 4)), True) in w]
-    big = [(c, w, n) for c, w, n in cl if ('if', ('<', size_of('ls'), ('num', 4)), False) in w]
+    def fewer_than_4(w):
+        """the truth of ls.size() < 4 in the context w (None: not tested), whatever the spelling of the test"""
+        sz = size_of('ls')
+        for c in w:
+            if c[0] != 'if' or not isinstance(c[1], tuple) or len(c[1]) != 3:
+                continue
+            op, a, b = c[1]
+            if b == sz and isinstance(a, tuple) and a[0] == 'num' and op in ('<', '<=', '>', '>='):
+                op, a, b = {'<': '>', '<=': '>=', '>': '<', '>=': '<='}[op], b, a         # k < size is size > k
+            if a != sz or not (isinstance(b, tuple) and b[0] == 'num'):
+                continue
+            if (op, b[1]) in (('<', 4), ('<=', 3)):
+                return bool(c[2])
+            if (op, b[1]) in (('>=', 4), ('>', 3)):
+                return not c[2]
+        return None
+    small = [(c, w, n) for c, w, n in cl if fewer_than_4(w) is True]
+    big = [(c, w, n) for c, w, n in cl if fewer_than_4(w) is False]
     if len(small) + len(big) != len(cl) or not small or not big:
         raise AnalysisBroken('%s: pairwise / product split (ls.size() < 4) not recognised' % f.id)
     defs = ctr_defs(env)
